@@ -24,6 +24,9 @@ type c16Case struct {
 	// Stored: the VM's variables hold values that have never been compiled (as restored from a snapshot / created by the
 	// host): function sf() { b3 + f + 2c5 + 3a5 }, computed sc = p1 + 2a10; an input that starts with "\x00expr:" goes to RunExpr
 	Stored bool `json:",omitempty"`
+	// RDice: the host registered a stream-parsed custom dice R<expression> (CustomDiceStream.ReadExpr): its operand is
+	// program text like any other
+	RDice bool `json:",omitempty"`
 }
 
 var gateTokens = []string{
@@ -162,9 +165,34 @@ func c16Enumerate(tier string, seed int64, emit func(string, any)) {
 			}
 		}
 	}
+	c16Late(emit, plain, strict)
+}
+
+func c16Late(emit func(string, any), plain []drv.Cfg, strict drv.Cfg) {
+	all := plain[15]
+	cfgs := []drv.Cfg{plain[0], all, strict}
+	for _, f := range []func(c *drv.Cfg){func(c *drv.Cfg) { c.NoStmts = true }, func(c *drv.Cfg) { c.NoNDice = true }, func(c *drv.Cfg) { c.NoBitwise = true }} {
+		c := all
+		f(&c)
+		cfgs = append(cfgs, c)
+	}
+	for _, t := range c16FeatureTexts {
+		for _, c := range cfgs {
+			// RunExpr, stored never-compiled function / computed value with this body (sg / sk), the operand of an R<expr> custom dice
+			emit("text compiled away from the main parse", c16Case{Srcs: []string{"\x00expr:" + t, "1", "\x00expr:" + t}, Cfg: c})
+			emit("text compiled away from the main parse", c16Case{Srcs: []string{"\x00body:" + t, "sg()", "sk", "sg() + 0"}, Cfg: c, Stored: true})
+			emit("text compiled away from the main parse", c16Case{Srcs: []string{"R(" + t + ")", "1 + R(" + t + ")", "[R" + t + "]"}, Cfg: c, RDice: true})
+			d := c
+			d.DefExpr = t
+			emit("text compiled away from the main parse", c16Case{Srcs: []string{"2d6", "func g(){ 1 }; g()"}, Cfg: d})
+		}
+	}
 }
 
 func cfgKey(c drv.Cfg) string { return c.String() }
+
+// texts that use each switchable feature, for the places where program text is compiled away from the main parse
+var c16FeatureTexts = []string{"b3 + f", "2c5 + 3a5 + p1", "if 1 { 2 }", "i = 0; while i < 2 { i = i + 1 }; i", "func q(){ 1 }; q()", "`{% if 1 { 2 } %}`", "2d", "d + 1", "1 | 2", "6 & 3", "1 + 2"}
 
 // st edit lists: values parsed under the st flag push (statements / implicit dice / bitwise disabled inside values)
 func c16StInputs(emit func(s string)) {
@@ -208,6 +236,32 @@ func c16Run(raw json.RawMessage) harn.Result {
 		vm.Attrs.Store("sf", ds.NewFunctionValRaw(&ds.FunctionData{Expr: "b3 + f + 2c5 + 3a5", Name: "sf"}))
 		vm.Attrs.Store("sc", ds.NewComputedVal("p1 + 2a10"))
 	}
+	if c.RDice {
+		_ = vm.RegCustomDiceParser(func(ctx *ds.Context, st *ds.CustomDiceStream) (*ds.CustomDiceParseResult, error) {
+			if r, ok := st.Read(); !ok || r != 'R' {
+				st.ResetAttempt()
+				return &ds.CustomDiceParseResult{Matched: false}, nil
+			}
+			v, ok, err := st.ReadExpr("")
+			if err != nil || !ok {
+				st.ResetAttempt()
+				return &ds.CustomDiceParseResult{Matched: false}, nil
+			}
+			return &ds.CustomDiceParseResult{Matched: true, Payload: v}, nil
+		}, func(ctx *ds.Context, groups []string, payload any) (*ds.VMValue, string, error) {
+			cv, _ := payload.(*ds.VMValue)
+			if cv == nil {
+				return nil, "", errors.New("payload lost")
+			}
+			ret := cv.ComputedExecute(ctx, &ds.BufferSpan{})
+			if ctx.Error != nil {
+				err := ctx.Error
+				ctx.Error = nil
+				return nil, "", err
+			}
+			return ret, "", nil
+		})
+	}
 	cur := c.Cfg
 	for i, src := range c.Srcs {
 		if i < len(c.Cfgs) {
@@ -219,6 +273,13 @@ func c16Run(raw json.RawMessage) harn.Result {
 		dispatched = map[string]int{}
 		var perr, rerr error
 		site, p := harn.Guard(func() {
+			if strings.HasPrefix(src, "\x00body:") {
+				body := strings.TrimPrefix(src, "\x00body:")
+				vm.Attrs.Store("sg", ds.NewFunctionValRaw(&ds.FunctionData{Expr: body, Name: "sg"}))
+				vm.Attrs.Store("sk", ds.NewComputedVal(body))
+				perr = errors.New("(host stores values: nothing parsed)")
+				return
+			}
 			if strings.HasPrefix(src, "\x00expr:") {
 				_, rerr = vm.RunExpr(strings.TrimPrefix(src, "\x00expr:"), false)
 				perr = errors.New("(RunExpr: no top-level listing)")
